@@ -134,8 +134,15 @@ def build_unwindset(goto, meta, spec, recursion):
         for lid, fn, f, line in show_loops(goto):
             pretty = pm.get(fn, fn)
             best = None
+            idx = lid.rsplit(".", 1)[-1]
             for pat, n in spec.items():
-                if pat in pretty or pat in ("%s:%s" % (os.path.basename(f), line)):
+                # "name#k": the k-th loop (CBMC numbering) of a function whose pretty name contains `name`
+                if "#" in pat:
+                    nm, k = pat.rsplit("#", 1)
+                    hit = nm in pretty and k == idx
+                else:
+                    hit = pat in pretty or pat == "%s:%s" % (os.path.basename(f), line)
+                if hit:
                     if best is None or len(pat) > len(best[0]):
                         best = (pat, n)
             if best:
@@ -176,7 +183,7 @@ def run_cbmc(goto, unwind, unwindset, timeout_s, mem_gb, out_json, trace=False, 
         cmd += ["--unwindset", ",".join(unwindset)]
     if trace:
         cmd += ["--trace"]
-    cmd += [goto, "--json-ui"]
+    cmd += [goto, "--json-ui", "--verbosity", "8"]
     res = CbmcResult()
     t0 = time.time()
     with open(out_json, "w") as out:
